@@ -161,7 +161,7 @@ def gen_def(rng):
                 rel[ty] = {c: nspec() for c in rng.sample(later, rng.randint(1, len(later)))}
         return {"relations": rel, "types": tdefs}
     if rng.random() < 0.6:
-        tdefs["*"] = {"g": rng.randint(0, 9), "gg": "glob"}
+        tdefs["*"] = {"g": rng.randint(0, 9), "gg": "glob", **({"style": {"a": 1, "z": 0}} if rng.random() < 0.5 else {})}
         if rng.random() < 0.2:
             tdefs["*"][":factory"] = Fac
     marker_in_relation = set()
@@ -179,6 +179,8 @@ def gen_def(rng):
             tdefs[ty][":factory"] = Fac
         if rng.random() < 0.2:
             tdefs[ty]["tr"] = tg.RangeRandomizer(100, 105)
+        if rng.random() < 0.3:
+            tdefs[ty]["style"] = {"b": 2, "a": 1}
         if rng.random() < 0.2:
             # a default count for this type (relations may override it)
             tdefs[ty][":count"] = rng.choice([0, 2, 3, tg.RangeRandomizer(2, 4)])
@@ -235,6 +237,11 @@ def gen_def(rng):
         if rng.random() < 0.15:
             s["zero"] = 0
             s["empty"] = ""
+        if rng.random() < 0.25:
+            s["gt"] = tg.ValueRandomizer("{{idx}}/{idx} {{ css: red }}", probability=rng.choice([1.0, 0.5]))
+        if rng.random() < 0.25:
+            # a dict-valued attribute on several layers: the most specific layer's value is the attribute (whole, not merged)
+            s["style"] = rng.choice([{}, {"c": 3}, {"a": 9}])
         if rng.random() < 0.2:
             # values that are objects of the application (compared by identity, not copyable): they are handed on as they are
             s["marker"] = _SENTINEL
@@ -388,7 +395,12 @@ def check_tree(tree, sd, typed, bad, res):
                             if v is not True:
                                 bad.append(f"sparse boolean attribute {key}={v!r} (it is either True or absent)")
                         elif issubclass(rcls, tg.ValueRandomizer):
-                            if v != val.value:
+                            if isinstance(val.value, str):
+                                # a generated string is a template like a literal one: expanded exactly once
+                                expv = {val.value.format(idx=j, hier_idx=h) for j, h in pairs}
+                                if v not in expv:
+                                    bad.append(f"attribute {key}={v!r}, the generated template {val.value!r} expands to {sorted(expv)}")
+                            elif v != val.value:
                                 bad.append(f"attribute {key}={v!r} != {val.value!r}")
                         elif issubclass(rcls, tg.DateRangeRandomizer):
                             if val.as_js_stamp:
